@@ -20,7 +20,7 @@ def one_trace(rng, tid, prop):
         if rng.random() < 0.75 or i == 0:
             kind = rng.choice(["int", "int", "float", "complex"])
             spec = gen.rand_poly_spec(rng, shape=shape, names=gen.rand_names(rng, 1, 3), kind=kind, max_terms=4)
-            ops.append(rec.new(build_poly(spec)))
+            ops.append(gen.maybe_view(rec, rng, rec.new(build_poly(spec)), 0.15))
         else:
             ops.append(rec.new(gen.rand_numeric(rng, shape, rng.choice(["int", "float"]))))
     for _ in range(rng.randint(2, 4)):
@@ -37,9 +37,28 @@ def one_trace(rng, tid, prop):
     return rec.to_json()
 
 
+def pair_trace(rng, tid, prop, index):
+    """All four functions on one (shape, shape) pair of the systematic list, arrays of pairwise distinct elements."""
+    from .shape import distinct_poly_spec
+    reset_options()
+    rec = Recorder(tid, prop)
+    pairs = gen.shape_pairs()
+    s1, s2 = pairs[index % len(pairs)]
+    a = rec.new(build_poly(distinct_poly_spec(rng, s1, names=(0, 1), kind="int")))
+    b = rec.new(build_poly(distinct_poly_spec(rng, s2, names=rng.choice([(0, 1), (1, 2), (10,)]), kind="int", tag=3)))
+    for fn in FNS:
+        new = rec.do("align", [a, b], fn=fn)
+        if new and len(new) == 2:
+            rec.do("realign", new, keep=False, fn=fn)
+    return rec.to_json()
+
+
 def generate(seed, n, prop="C04", start=0, **kw):
     out = []
     for i in range(start, start + n):
         rng = random.Random("align/%d/%d" % (seed, i))
-        out.append(one_trace(rng, "%s-align-s%d-%05d" % (prop, seed, i), prop, **kw))
+        if i % 2 == 0:
+            out.append(pair_trace(rng, "%s-align-s%d-%05d" % (prop, seed, i), prop, i // 2 + seed))
+        else:
+            out.append(one_trace(rng, "%s-align-s%d-%05d" % (prop, seed, i), prop, **kw))
     return out
